@@ -336,3 +336,30 @@ Definition go_lz64 (p : Z) : Z := if p <=? 0 then 64 else 63 - Z.log2 p.
 
 Lemma go_u64_small z : 0 <= z < 18446744073709551616 -> go_u64 z = z.
 Proof. intros H. unfold go_u64. apply Z.mod_small. exact H. Qed.
+
+(* ---- 64-bit words inside a byte slice: the uint64 read or written through unsafe.Pointer(&data[i]) ----
+   Taking &data[i] is the bounds check of data[i] ([Panic PIndex]); the 8-byte access itself is
+   UNCHECKED in Go: when it is not wholly inside the slice the result is the distinguished
+   [Panic PFault] (not a Go panic: the program would touch memory outside the slice).  Inside, the
+   value is the little-endian one of bytes i..i+7. *)
+Definition PFault : panic_kind := PMsg "<fnrt> unsafe 8-byte access beyond the slice".
+Fixpoint go_le_word (bs : list Z) : Z :=
+  match bs with
+  | [] => 0
+  | b :: t => b + 256 * go_le_word t
+  end.
+Fixpoint go_le_bytes (cnt : nat) (v : Z) : list Z :=
+  match cnt with
+  | O => []
+  | S c => (v mod 256) :: go_le_bytes c (v / 256)
+  end.
+Definition go_load64 (l : list Z) (i : Z) : res Z :=
+  if (0 <=? i) && (i <? zlen l) then
+    if i + 8 <=? zlen l then Ok (go_le_word (firstn 8 (skipn (Z.to_nat i) l))) else Panic PFault
+  else Panic PIndex.
+Definition go_store64 (l : list Z) (i v : Z) : res (list Z) :=
+  if (0 <=? i) && (i <? zlen l) then
+    if i + 8 <=? zlen l
+    then Ok (firstn (Z.to_nat i) l ++ go_le_bytes 8 v ++ skipn (Z.to_nat i + 8) l)
+    else Panic PFault
+  else Panic PIndex.
